@@ -799,7 +799,7 @@ Definition op_ok (o : op) : bool :=
 Lemma resolve_ok : forall d h, db_ok d = true -> str_ok h = true -> str_ok (resolve d h) = true.
 Proof.
   intros d h Hd Hh. unfold resolve. destruct (has h d); auto.
-  destruct (str_eqb h DEFAULT_NAMESPACE && Nat.eqb (List.length d) 1); auto.
+  destruct (str_eqb h DEFAULT_NAMESPACE && Nat.eqb (List.length d) ADOPT_COUNT); auto.
   destruct d as [|[ns m] r]; auto. simpl in Hd. apply andb_true_iff in Hd. destruct Hd as [H1 _].
   simpl in H1. apply andb_true_iff in H1. tauto.
 Qed.
@@ -1193,7 +1193,7 @@ Proof.
   unfold resolve at 2 3. unfold a_load. unfold resolve at 2 3 4 5.
   destruct (has h d) eqn:Hh.
   - rewrite Hh. simpl. apply resolve_present. apply has_ins_same.
-  - destruct (str_eqb h DEFAULT_NAMESPACE && Nat.eqb (List.length d) 1) eqn:C.
+  - destruct (str_eqb h DEFAULT_NAMESPACE && Nat.eqb (List.length d) ADOPT_COUNT) eqn:C.
     + destruct d as [|[ns m] [|x y]]; simpl in C; try (rewrite andb_false_r in C; discriminate).
       unfold has in Hh. simpl in Hh. destruct (str_eqb h ns) eqn:Ens; try discriminate.
       unfold has. simpl. rewrite !str_eqb_refl. simpl. rewrite str_eqb_refl.
@@ -1415,3 +1415,81 @@ Proof.
   - rewrite Hvs, Hva. reflexivity.
   - rewrite Hvs, Hva. reflexivity.
 Qed.
+
+(* ================================================================== end to end: one namespace's view over a whole history *)
+(* what one operation does to the key map it works on *)
+Definition step_view (m : kmap) (o : op) : kmap :=
+  match o with
+  | Delete name => if has name m then del name m else m
+  | _ => new_kmap m o
+  end.
+
+Definition item_named (it : item) : bool :=
+  match it with
+  | Do h _ _ => negb (str_eqb h DEFAULT_NAMESPACE)
+  | Crash _ _ _ _ _ => false
+  end.
+
+(* the operations of a history that go through namespace h, applied in order to a key map *)
+Definition replay_view (h : str) (items : list item) (m : kmap) : kmap :=
+  fold_left (fun m it => if str_eqb (fst (item_hop it)) h then step_view m (snd (item_hop it)) else m) items m.
+
+(* What a named store sees after any history of operations through any named stores on the
+   same file is its own updates and deletions applied in order to what it saw before; the
+   operations through the other namespaces leave no trace in it. *)
+Theorem view_history : forall items d h,
+  str_eqb h DEFAULT_NAMESPACE = false -> forallb item_named items = true ->
+  view (fst (a_run d items [])) h = replay_view h items (view d h).
+Proof.
+  induction items as [|it items IH]; intros d h Hh Hn.
+  - reflexivity.
+  - simpl in Hn. apply andb_true_iff in Hn. destruct Hn as [Hi Hr].
+    destruct it as [h' o lens|]; simpl in Hi; try discriminate.
+    apply negb_true_iff in Hi.
+    cbn [a_run]. destruct (a_step d h' o) as [d1 x] eqn:E.
+    specialize (IH d1 h Hh Hr). destruct (a_run d1 items []) as [d2 xs]. simpl fst in *.
+    rewrite IH. unfold replay_view. cbn [fold_left item_hop fst snd]. f_equal.
+    assert (d1 = fst (a_step d h' o)) as Ed by (rewrite E; reflexivity). subst d1.
+    destruct (str_eqb h' h) eqn:Eh.
+    + apply str_eqb_eq in Eh. subst h'. rewrite view_after. unfold step_view. destruct o; reflexivity.
+    + apply other_handles_unchanged.
+      * rewrite (resolve_named d h' Hi). rewrite str_eqb_sym. exact Eh.
+      * left. exact Hh.
+Qed.
+
+(* ... and what it then reads is a function of that replayed view alone *)
+Corollary get_after_history : forall items d h name,
+  str_eqb h DEFAULT_NAMESPACE = false -> forallb item_named items = true ->
+  snd (a_step (fst (a_run d items [])) h (Get name)) =
+  match lookup name (replay_view h items (view d h)) with
+  | None => OGet None
+  | Some pd => match from_dict pd with Some k => OGet (Some k) | None => OBadKeys end
+  end.
+Proof.
+  intros items d h name Hh Hn. destruct (reads_from_view (fst (a_run d items [])) h) as [G _].
+  rewrite G. rewrite view_history by auto. reflexivity.
+Qed.
+
+(* ================================================================== get_resolving_keys *)
+Theorem resolving_keys_spec : forall l v name t,
+  In (v, name, t) (resolving_keys l) <->
+  exists k key, In (name, k) l /\ irk k = Some key /\ v = k_value key /\
+                t = match address_type k with Some a => a | None => RANDOM_DEVICE_ADDRESS end.
+Proof.
+  induction l as [|[n k] r IH]; intros v name t; simpl.
+  - split; [tauto|]. intros (k & key & H & _). exact H.
+  - destruct (irk k) as [key|] eqn:E; simpl; rewrite IH; split.
+    + intros [H|(k' & key' & H1 & H2)].
+      * inversion H; subst. exists k, key. auto.
+      * exists k', key'. tauto.
+    + intros (k' & key' & [H|H] & H2 & H3 & H4).
+      * inversion H; subst. left. rewrite E in H2. inversion H2; subst. reflexivity.
+      * right. exists k', key'. auto.
+    + intros (k' & key' & H1 & H2). exists k', key'. tauto.
+    + intros (k' & key' & [H|H] & H2 & H3 & H4).
+      * inversion H; subst. rewrite E in H2. discriminate.
+      * exists k', key'. auto.
+Qed.
+
+Lemma resolving_keys_length : forall l, (List.length (resolving_keys l) <= List.length l)%nat.
+Proof. induction l as [|[n k] r IH]; simpl; auto. destruct (irk k); simpl; lia. Qed.
